@@ -2,4 +2,4 @@ import NetVerif.Driver.SendWinStep
 /-! Driver for C08: trace monitor for the server's outbound flow control. -/
 open NetVerif.Driver NetVerif.Driver.SendWin
 
-def main : IO Unit := runLoop step NetVerif.Model.SendWin.Mon.init
+def main : IO Unit := runLoop step none
